@@ -101,7 +101,7 @@ def finish(pid, tier, seed, goals, meta, results, ok_canary, canary_info, t0):
         samples.append({'obligation': o['id'], 'clause': o['text'], 'verdict': 'failed', 'counterexample': o.get('model')})
     assumptions = [GLOBAL_ASSUMPTIONS[a] for a in ('A1', 'A2', 'A3', 'A4', 'A5', 'A8')] + meta.get('assumptions', [])
     ev = {
-        'property_id': pid, 'tier': tier, 'seed': seed, 'level': 'proof',
+        'property_id': pid, 'tier': tier, 'seed': seed, 'level': meta.get('level', 'proof'),
         'coverage': {
             'obligations': len(obligations), 'discharged': discharged,
             'checker_cmd': 'bin/check %s --tier %s  (python3-vt -m lpv.check; E2: lpv symbolic execution -> z3 %s; E1: goto-cc/goto-instrument --dfcc/cbmc 6.11 cadical)' % (pid, tier, _z3v()),
